@@ -104,15 +104,33 @@ def esc_sig(e, src):
 def walk_avps(avps, rec, case, depth, src, ADE):
     from diameter.message.avp import AvpGrouped
     for a in avps:
+        raised_first = False
         try:
             v = a.value
         except ADE:
             v = None
+            raised_first = True
         except WorkBudget:
             raise
         except Exception as e:
             rec.violation(f"C04/escape/{esc_sig(e, src)}", case, f"{type(a).__name__}.value raised {e!r}"[:300])
             v = None
+        # every read must behave the same: a malformed payload raises the decode
+        # error each time, a well-formed one returns an equal value each time
+        try:
+            v2 = a.value
+            same = (v2 == v) or (v2 != v2 and v != v)
+            if raised_first or not same:
+                rec.violation("C04/inconsistent-read", case,
+                              f"{type(a).__name__}.value: first read {'raised AvpDecodeError' if raised_first else 'returned'}, "
+                              f"second read returned {str(v2)[:80]}")
+        except ADE:
+            if not raised_first:
+                rec.violation("C04/inconsistent-read", case, f"{type(a).__name__}.value returned first, raised on the second read")
+        except WorkBudget:
+            raise
+        except Exception:
+            pass            # already reported by the first read
         try:
             str(a)
         except WorkBudget:
